@@ -334,6 +334,28 @@ fn has_near_tie(l: &J, r: &J) -> bool {
     }
 }
 
+fn case_pair(lt: &str, rt: &str, st: &mut Stats) -> CaseResult {
+    let l = J::Num(numeral_value(lt));
+    let r = J::Num(numeral_value(rt));
+    let (l, r) = (J::parse(lt).unwrap_or(l), J::parse(rt).unwrap_or(r));
+    check_pair("cases", &l, lt, &r, rt, st)
+}
+
+fn fixed_cases(_env: &Env, st: &mut Stats) -> Vec<Failure> {
+    let mut out = vec![];
+    for (l, r) in [("1.5e308", "1.6e308"), ("1.7e308", "-1.7e308"), ("1", "1.0"), ("5e-324", "1e-323"), ("0", "-0.0"), ("[1,{\"a\":2}]", "[1.0,{\"a\":2e0}]"), ("1", "\"1\"")] {
+        if let Err(f) = case_pair(l, r, st) {
+            out.push(f);
+        }
+    }
+    out
+}
+
+fn replay_case(case: &serde_json::Value, _env: &Env) -> CaseResult {
+    let mut st = Stats::new();
+    case_pair(case["l"].as_str().unwrap_or("null"), case["r"].as_str().unwrap_or("null"), &mut st)
+}
+
 pub fn property() -> Property {
     Property {
         id: "C10",
@@ -342,6 +364,9 @@ pub fn property() -> Property {
             "numbers are identical or differ by more than 1e-9 relatively (the statement's 'well-separated'); the same value in different spellings is only generated inside the numeral domain the JSON parser reads exactly (<= 15 digits, |exponent| <= 22)".into(),
             "the model value of a numeral is std's correctly rounded parse".into(),
         ],
-        subs: vec![Sub::Bytes(BytesSub { name: "pairs", f: pairs, max_len: 600, quick: Budget { threads: 8, cases: 6000 }, thorough: Budget { threads: 16, cases: 300_000 } })],
+        subs: vec![
+            Sub::Custom(CustomSub { name: "cases", run: fixed_cases, replay: replay_case }),
+            Sub::Bytes(BytesSub { name: "pairs", f: pairs, max_len: 600, quick: Budget { threads: 8, cases: 6000 }, thorough: Budget { threads: 16, cases: 300_000 } }),
+        ],
     }
 }
